@@ -201,6 +201,15 @@ where
                         .inspect_err(|error| debug!(parent: &span, ?error, "Failed to send LogSyncMessage::PreSync"))
                         .map_err(|err| LogSyncError::MessageSink(format!("{err:?}")))?;
 
+                    // Once we've announced that we're done (because there was nothing to send at
+                    // this point) we must not send any further sync messages, even if the computed
+                    // ranges are non-empty (for example after the store got pruned concurrently).
+                    let remote_needs = if sync_done_sent {
+                        LogRanges::default()
+                    } else {
+                        remote_needs
+                    };
+
                     self.state = State::ReceivePreSyncOrDone {
                         remote_needs,
                         outbound_operations,
